@@ -141,11 +141,11 @@ Proof.
       destruct (sub_loop T rec w (n_type n) ty f v rest) as [[e2 m2]| |] eqn:E3; cbn [bind] in H; try discriminate.
       injection H as <- <-.
       rewrite app_nil_iff. apply (Hrest _ _ eq_refl).
-      assert (HVc : Vis T w f v tc c) by (eapply Vis_child; eassumption).
+      pose proof (Vis_child T w f v ty i n c cn tc ixs HV Hn Hin Ecn Efile E1) as HVc.
       pose proof (Hrec c tc _ HVc Er) as Hc. cbn [fst] in Hc. rewrite Hc.
       split.
-      * intros Hval. exists tc, ixs. split; [reflexivity|exact Hval].
-      * intros (tc' & ixs' & [= <- <-] & Hval). exact Hval.
+      * intros Hval. exists tc, ixs. split; [exact E1|exact Hval].
+      * intros (tc' & ixs' & Hx & Hval). rewrite E1 in Hx. injection Hx as <- <-. exact Hval.
     + destruct r2 as [[tc ixs]|].
       * (* found only in other versions: the entry's mask excludes v, an error is pushed *)
         cbn match in H.
